@@ -57,6 +57,7 @@ list_t              *snoopy_tsrm_threadRepo = &snoopy_tsrm_threadRepo_data;
  * Non-exported function prototypes
  */
 void                        snoopy_tsrm_init                      ();
+void                        snoopy_tsrm_onLoad                    () __attribute__((constructor));
 void                        snoopy_tsrm_atfork_prepare            ();
 void                        snoopy_tsrm_atfork_parent             ();
 void                        snoopy_tsrm_atfork_child              ();
@@ -171,6 +172,29 @@ void snoopy_tsrm_init ()
 
     // Do not let fork() copy the mutex while some other thread is holding it
     pthread_atfork(&snoopy_tsrm_atfork_prepare, &snoopy_tsrm_atfork_parent, &snoopy_tsrm_atfork_child);
+}
+
+
+
+/*
+ * snoopy_tsrm_onLoad
+ *
+ * Description:
+ *     Runs the one-time initialization already when the library is loaded.
+ *     The fork() handlers must be registered before any thread of the process
+ *     can call fork(): a fork() that starts before snoopy_tsrm_init() has run
+ *     does not call them, even if another thread runs snoopy_tsrm_init()
+ *     (on its first exec() call) while that fork() is still in progress.
+ *
+ * Params:
+ *     (none)
+ *
+ * Return:
+ *     void
+ */
+void snoopy_tsrm_onLoad ()
+{
+    pthread_once(&snoopy_tsrm_init_onceControl, &snoopy_tsrm_init);
 }
 
 
